@@ -85,7 +85,7 @@ def _featdiff_worker(key):
         if pr is not None and pr not in proj:
             proj[pr] = [list(x) for x in ex.full]
     t0 = time.time()
-    viol, unsup, st = explore.explore(path, max_paths=grp.get("max_paths", 60000), time_budget=grp.get("budget", 200), on_path=on_path, por=False)
+    viol, unsup, st = explore.explore(path, max_paths=grp.get("max_paths", 60000), time_budget=grp.get("budget", 600), on_path=on_path, por=False)
     d = dict(st.__dict__)
     d["samples"] = []
     return key, proj, d, unsup, time.time() - t0
@@ -227,7 +227,7 @@ def run_group(pid, grp, tier, out, repo, work):
         name = "mir:%s[%s]%s" % (sc["fn"], ",".join(feats) or "default", "" if outer_tier == "quick" else ("@quick-bounds" if tier_run == "quick" else "@deep-bounds"))
         ob = {"engine": "mir", "name": name, "features": feats, "bounds": sc.get("bounds", ""), "encodes": sc.get("encodes", "")}
         maxp = sc.get("max_paths", {"quick": 30000, "thorough": 400000})[tier] if isinstance(sc.get("max_paths"), dict) else sc.get("max_paths", 30000 if tier == "quick" else 400000)
-        budget = sc.get("budget", 240 if tier == "quick" else int(os.environ.get("VERIF_DEEP_BUDGET", "120")))
+        budget = sc.get("budget", 600 if tier == "quick" else int(os.environ.get("VERIF_DEEP_BUDGET", "120")))
         try:
             viol, unsup, st = run_scenario(prog, fn, pid, tier, maxp, budget, attribute_all=grp.get("attribute_all", False) or sc.get("attribute_all", False))
         except Exception as e:      # an interpreter bug is never a verdict
